@@ -8,7 +8,9 @@ META = {
              ded='Factor.__sub__ under a pointwise extended-real contract: a structural zero in the divisor leaves the dividend unchanged, -inf persists, NaN only from NaN or inf-inf operands (for every cell value). '
                  'belief_propagation: given the calibration lemma L-cal (ASSUMED: after the message schedule all clique beliefs share one exp-sum Z), every clique table is exp(belief + log(total) - log Z), is stored once per clique and sums to self.total; with logZ=True the result is log Z. '
                  'Sum-product exactness on arbitrary junction trees is not SMT-dischargeable (inductive sub-tree invariant over exponentially large sums) and is decided bounded.',
-             trusted=['numpy IEEE semantics of ==, unary -, +, np.where on one arbitrary cell (written out in pv/contracts/extsub.py)', 'alignment of operand axes (C14 invariant)']),
+             trusted=['numpy IEEE semantics of ==, unary -, +, np.where on one arbitrary cell (written out in pv/contracts/extsub.py)', 'alignment of operand axes (C14 invariant)',
+                      'ASSUMED L-cal (calibration: after a valid message schedule all clique beliefs have the same exp-sum) - this IS the sum-product theorem; it is what the bounded tier decides on explicit joints',
+                      'exp/log identities over the reals (normalisation idiom)']),
  'C02': dict(technique=DED + ': call-site contracts of GraphicalModel.project (requested tuple reaches Factor.project on both paths, total passed to VE) and the normalisation idiom of variable elimination; equality with the explicit joint decided bounded',
              ded='GraphicalModel.project: on every path the answer went through exactly one <factor>.project(attrs) for the requested tuple (a path returning a stored table as it is fails), belief_propagation(logZ=True) returns log Z under L-cal (krondot divides by it), VE is normalised to self.total and eliminates exactly the other attributes; '
                  'variable_elimination_logspace returns a table summing to total (L-norm); GraphicalModel.datavector (the full-vector query): the table on the covered attributes sums to 1, expansion onto the whole domain multiplies the sum by the ratio of cell counts, the weight undoes it and the result sums to self.total.',
